@@ -174,9 +174,21 @@ func runEntries(r *Rng, o *Out, st *hrs.Strs, nWorlds int, hist Hist, caseJSON m
 			}
 		}
 		sets := []params.VerifyTxn{tr.user, tr.unc, tr.cb}
+		ti := 0
+		{ // outputs of the locked address last, so that the fixed prefix spends ordinary outputs
+			var a, b coin.UxArray
+			for _, u := range pool {
+				if addrID(u.Body.Address) == nk.LockedKey {
+					b = append(b, u)
+				} else {
+					a = append(a, u)
+				}
+			}
+			pool = append(a, b...)
+		}
 		for len(pool) > 0 {
 			nin := 1
-			if r.Chance(20) && len(pool) > 1 {
+			if ti >= 10 && r.Chance(20) && len(pool) > 1 {
 				nin = 2
 			}
 			ins := append(coin.UxArray{}, pool[:nin]...)
@@ -188,24 +200,45 @@ func runEntries(r *Rng, o *Out, st *hrs.Strs, nWorlds int, hist Hist, caseJSON m
 				C += ux.Body.Coins
 				hs = append(hs, ux.Hash())
 			}
-			aim := sets[r.Intn(3)]
-			// fee
+			// the first transactions of every world are fixed (one per family), the rest random
+			type pick struct{ cat, set, d int }
+			script := []pick{{5, 1, 0}, {0, 1, 0}, {0, 2, 0}, {0, 0, 0}, {0, 1, -1}, {1, 1, 0}, {1, 2, 0}, {1, 0, 1}, {2, 1, 1}, {2, 0, 1}}
+			var pk pick
+			if ti < len(script) {
+				pk = script[ti]
+			} else {
+				pk = pick{set: r.Intn(3), d: r.Intn(3) - 1}
+				switch x := r.Intn(20); {
+				case x < 10:
+					pk.cat = 0
+				case x < 15:
+					pk.cat, pk.d = 1, r.Intn(2)
+				case x < 18:
+					pk.cat = 2
+				case x < 19:
+					pk.cat = 3
+				default:
+					pk.cat = 4
+				}
+			}
+			ti++
+			aim := sets[pk.set]
 			feeH := ceilDiv(H, tr.user.BurnFactor) // satisfies every set (the user burn factor is the smallest)
 			nout := 1 + r.Intn(3)
 			dec := int(tr.user.MaxDropletPrecision)
 			kind := ""
 			hoursExtra := uint64(0)
-			switch x := r.Intn(20); {
-			case x < 10:
-				d := int64(r.Intn(3)) - 1
-				f := int64(ceilDiv(H, aim.BurnFactor)) + d
+			wrapOut := false
+			switch pk.cat {
+			case 0:
+				f := int64(ceilDiv(H, aim.BurnFactor)) + int64(pk.d)
 				if f < 0 {
 					f = 0
 				}
 				feeH = uint64(f)
-				kind = fmt.Sprintf("fee=ceil(H/%d)%+d", aim.BurnFactor, d)
-			case x < 15:
-				dec = int(aim.MaxDropletPrecision) + r.Intn(2)
+				kind = fmt.Sprintf("fee=ceil(H/%d)%+d", aim.BurnFactor, pk.d)
+			case 1:
+				dec = int(aim.MaxDropletPrecision) + pk.d
 				if dec > 6 {
 					dec = 6
 				}
@@ -213,15 +246,20 @@ func runEntries(r *Rng, o *Out, st *hrs.Strs, nWorlds int, hist Hist, caseJSON m
 					nout = 2
 				}
 				kind = fmt.Sprintf("decimals=%d", dec)
-			case x < 18:
+			case 2, 5:
 				lim := int(aim.MaxTransactionSize)
 				if lim > 2000 {
 					lim = 1024
 				}
 				// encoded size = 53 + 97*nin + 37*nout
-				nout = (lim-53-97*nin)/37 + r.Intn(3) - 1
-				kind = fmt.Sprintf("size~%d", lim)
-			case x < 19:
+				nout = (lim-53-97*nin)/37 + pk.d
+				kind = fmt.Sprintf("size~%d%+d", lim, pk.d)
+				if pk.cat == 5 { // above every size limit AND overflowing output hours: a hard violation
+					nout = (1700-53-97*nin)/37 + 2
+					wrapOut = true
+					kind = "oversize+output-hours-overflow"
+				}
+			case 3:
 				feeH = 0
 				kind = "fee=0"
 			default:
@@ -253,6 +291,9 @@ func runEntries(r *Rng, o *Out, st *hrs.Strs, nWorlds int, hist Hist, caseJSON m
 				touts = append(touts, coin.TransactionOutput{Address: w.Addrs[i%(nk.NKeys-1)], Coins: c, Hours: h})
 				cl -= c
 				hl -= h
+			}
+			if wrapOut && len(touts) >= 2 {
+				touts[0].Hours, touts[1].Hours = 1<<63, 1<<63
 			}
 			// many outputs to one of five addresses: make them pairwise distinct by their hours / coins
 			seen := map[coin.TransactionOutput]bool{}
